@@ -24,7 +24,7 @@ SIG_MUTS = ['type', 'pkalg', 'halg', 'hashed-bit', 'hashed-len', 'sub-delete', '
             'sub-value', 'sub-add', 'mpi-bit', 'mpi-plus1', 'mpi-zero', 'mpi-swap', 'mpi-trunc', 'mpi-high', 'version']
 SUBJ_MUTS = ['doc-bit', 'doc-insert', 'doc-delete', 'doc-swap', 'text-eol', 'uid-char', 'uid-append', 'uid-as-ua', 'key-time', 'key-material',
              'key-alg', 'key-other', 'subkey-other', 'subkey-swap-roles', 'subkey-material']
-KEY_MUTS = ['key-otherkey-reissue', 'key-bit-reissue', 'key-primary-for-subkey']
+KEY_MUTS = ['key-otherkey-reissue', 'key-bit-reissue', 'key-primary-for-subkey', 'key-encsubkey-reissue']
 ALL_MUTS = SIG_MUTS + SUBJ_MUTS + KEY_MUTS
 _KEYSUBJ = ['key-time', 'key-material', 'key-alg', 'key-other']
 APPLICABLE = {
@@ -305,6 +305,16 @@ def mutate(t, mut, a, b):
         m.signer_body = opub.body
         cert = keypool.ref_cert(other, secret=False)
         return m, mut, cert
+    if mut == 'key-encsubkey-reissue':
+        # routed to an encryption-only (ECDH / ElGamal) subkey of the verifying certificate: a key that cannot have signed at all
+        encs = [k for k in sorted(keypool.pool()) if keypool.pool()[k]['alg'] in (16, 18)]
+        other = encs[a % len(encs)]
+        opub = keypool.ref_public(other)
+        m.sig = _retarget_issuer(t.sig, opub.keyid)
+        m.signer_body = opub.body
+        prim = [k for k in ('ed25519-2', 'rsa1024-1', 'ecdsa-p256-1') if keypool.public_body(k) != t.signer_body][b % 2]
+        cert = keypool.ref_cert(prim, subkeys=((other, 0x0C),), secret=False)
+        return m, mut + '/alg%d' % opub.alg, cert
     if mut == 'key-bit-reissue':
         d = bytearray(t.signer_body)
         skip = set(rkeys.mpi_header_offsets(t.signer_body))
